@@ -231,6 +231,117 @@ def surrogate_history(ops, logx=False, broadcast=True):
     return ev
 
 
+class RecordingTernary:
+    """scripted ternary backend for MulticomponentSurrogate (diffusivities only): the off-diagonal interdiffusivities are negative,
+    as they usually are; every call is recorded"""
+    numElements = 3
+    elements = ["A", "B", "C"]
+    phases = ["alpha", "beta", "gamma"]
+
+    def __init__(self):
+        self.calls = []
+
+    @staticmethod
+    def _xT(x, T):
+        x = np.atleast_2d(np.asarray(x, dtype=float))
+        T = np.atleast_1d(np.asarray(T, dtype=float))
+        if len(T) == 1 and len(x) > 1: T = np.repeat(T, len(x))
+        if len(x) == 1 and len(T) > 1: x = np.repeat(x, len(T), axis=0)
+        return x, T
+
+    def getInterdiffusivity(self, x, T, removeCache=True, phase=None):
+        xin, Tin = np.array(x, dtype=float).copy(), np.array(T, dtype=float).copy()
+        x, T = self._xT(x, T)
+        arr = np.exp(-150e3 / (8.314 * T))
+        d = np.zeros((len(T), 2, 2))
+        d[:, 0, 0] = 2.0e-4 * arr * (1 + 2 * x[:, 0]); d[:, 1, 1] = 5.0e-4 * arr * (1 + 3 * x[:, 1])
+        d[:, 0, 1] = -0.8e-4 * arr * (0.5 + 4 * x[:, 0]); d[:, 1, 0] = -1.5e-4 * arr * (0.5 + 2 * x[:, 1])
+        ret = np.squeeze(d)
+        self.calls.append(("getInterdiffusivity", (xin, Tin, phase), ret))
+        return ret
+
+    def getTracerDiffusivity(self, x, T, removeCache=True, phase=None):
+        xin, Tin = np.array(x, dtype=float).copy(), np.array(T, dtype=float).copy()
+        x, T = self._xT(x, T)
+        arr = np.exp(-150e3 / (8.314 * T))
+        ret = np.squeeze(np.stack([1.0e-4 * arr * (1 + x[:, 0]), 2.0e-4 * arr * (1 + x[:, 1]), 5.0e-4 * arr * (1 + x[:, 0] + x[:, 1])], axis=1))
+        self.calls.append(("getTracerDiffusivity", (xin, Tin, phase), ret))
+        return ret
+
+
+def ternary_surrogate_history(ops):
+    """ops: ("train", "diffusivity", phase) | ("query", getInterdiffusivity|getTracerDiffusivity, phase) | ("reload",) on a MulticomponentSurrogate"""
+    from kawin.thermo.Surrogate import MulticomponentSurrogate, generateTrainingPoints
+    th = RecordingTernary()
+    sur = MulticomponentSurrogate(th)
+    ev = [{"e": "init"}]
+    tmp = tempfile.mkdtemp(prefix="c20t_")
+    xs = generateTrainingPoints(np.linspace(0.02, 0.12, 3), np.linspace(0.03, 0.15, 3))
+    Ts = np.array([1000.0, 1100.0])
+    try:
+        for op in ops:
+            if op[0] == "train":
+                sur.trainDiffusivity(xs, Ts, phase=op[2])
+                ev.append({"e": "train", "model": "diffusivity", "ph": op[2]})
+            elif op[0] == "query":
+                _, q, ph = op
+                trained_now = ph in sur.diffusivityModels
+                if trained_now:
+                    data = sur.diffusivityData[ph]
+                    args = (np.array(data["x"]), np.array(data["T"]))
+                else:
+                    args = (np.array([[0.05, 0.07], [0.08, 0.04]]), np.array([1050.0, 1050.0]))
+                n0 = len(th.calls)
+                out = getattr(sur, q)(*args, phase=ph)
+                new = th.calls[n0:]
+                e = {"e": "query", "q": q, "ph": ph, "nback": len(new), "backend": new[0][0] if len(new) == 1 else ("" if not new else "+".join(c[0] for c in new)),
+                     "argsame": False, "valsame": False, "attrain": bool(trained_now), "fit": "eq"}
+                if len(new) == 1:
+                    e["argsame"] = same(new[0][1][:2], args) and new[0][1][2] == ph
+                    e["valsame"] = same(new[0][2], out)
+                if trained_now:
+                    ref = getattr(RecordingTernary(), q)(*args, phase=ph)
+                    a_, b_ = np.ravel(np.asarray(out, dtype=float)), np.ravel(np.asarray(ref, dtype=float))
+                    e["fit"] = "eq" if a_.shape == b_.shape and np.allclose(a_, b_, rtol=1e-6, atol=1e-12 * float(np.max(np.abs(b_)))) else "gt"
+                ev.append(e)
+            else:
+                path = os.path.join(tmp, "sur")
+                pts = (np.array([[0.05, 0.07], [0.09, 0.10]]), np.array([1050.0, 1080.0]))
+
+                def predictions(s_):
+                    o = {}
+                    for q in ("getInterdiffusivity", "getTracerDiffusivity"):
+                        for ph in ("beta", "gamma", "alpha"):
+                            o[(q, ph)] = np.ravel(np.asarray(getattr(s_, q)(*pts, phase=ph), dtype=float))
+                    return o
+                before = predictions(sur)
+                sur.toJson(path)
+                sur2 = MulticomponentSurrogate(RecordingTernary())
+                sur2.fromJson(path)
+                after = predictions(sur2)
+                ok = all(np.allclose(before[k], after[k], rtol=1e-9, atol=1e-300) for k in before)
+                ev.append({"e": "reload", "same": "eq" if ok else "gt"})
+                sur = sur2
+                th = sur2.therm
+    except Exception as ex:  # noqa
+        ev.append({"e": "exception", "msg": "%s: %s" % (type(ex).__name__, str(ex)[:200])})
+    finally:
+        shutil.rmtree(tmp, ignore_errors=True)
+    return ev
+
+
+def gen_ternary_histories():
+    q1, q2 = ("query", "getInterdiffusivity"), ("query", "getTracerDiffusivity")
+    H = []
+    for ph in ("beta", "alpha"):
+        tr = ("train", "diffusivity", ph)
+        H.append([q1 + (ph,), tr, q1 + (ph,), q2 + (ph,), q1 + ("gamma",)])
+        H.append([tr, ("reload",), q1 + (ph,), q2 + (ph,), q2 + ("gamma",)])
+        H.append([tr, q1 + (ph,), ("reload",), ("reload",), q1 + (ph,)])
+    H.append([("train", "diffusivity", "beta"), ("train", "diffusivity", "gamma"), ("reload",), ("query", "getInterdiffusivity", "gamma"), ("query", "getInterdiffusivity", "alpha")])
+    return H
+
+
 def persist_strength(cfg):
     """StrengthModel.save / load after a coupled run: stored histories are reproduced exactly"""
     from kawin.precipitation.coupling.Strength import StrengthModel
